@@ -48,6 +48,16 @@ class FalsyFailure(Exception):
         return False
 
 
+class Unprintable(Exception):
+    """an exception that cannot be turned into text: `str()` and `repr()` of it raise (a broken `__str__` of a user's exception
+    class; the failure is a failure all the same)"""
+
+    def __str__(self):
+        raise RuntimeError("this exception cannot be printed")
+
+    __repr__ = __str__
+
+
 class EmptyGroup(BaseException):
     def __len__(self):
         return 0
@@ -63,7 +73,7 @@ def NestedCallError(msg):
     return e
 
 
-EXC = {"NestedCallError": NestedCallError, "FalsyFailure": FalsyFailure, "EmptyGroup": EmptyGroup, "Failure": Failure, "BaseFailure": BaseFailure, "ValueError": ValueError, "KeyboardInterrupt": KeyboardInterrupt,
+EXC = {"Unprintable": Unprintable, "NestedCallError": NestedCallError, "FalsyFailure": FalsyFailure, "EmptyGroup": EmptyGroup, "Failure": Failure, "BaseFailure": BaseFailure, "ValueError": ValueError, "KeyboardInterrupt": KeyboardInterrupt,
        "SystemExit": SystemExit}
 
 
